@@ -420,8 +420,8 @@ func main() {
 			r.Violate("", "cannot build location", nil)
 			break
 		}
-		nclients := 2 + rng.Intn(e.Pick(3, 5))
-		nops := 3 + rng.Intn(e.Pick(4, 6))
+		nclients := 2 + rng.Intn(e.Pick(3, 4))
+		nops := 3 + rng.Intn(e.Pick(4, 5))
 		plans := make([][]In, nclients)
 		for c := range plans {
 			for n := 0; n < nops; n++ {
@@ -498,7 +498,7 @@ func main() {
 		if overlapped(hist) {
 			r.Count("histories_with_overlap", 1)
 		}
-		res, _ := porcupine.CheckOperationsVerbose(model, toOps(hist, false), 20*time.Second)
+		res, _ := porcupine.CheckOperationsVerbose(model, toOps(hist, false), 10*time.Second)
 		sort.Slice(hist, func(i, j int) bool { return hist[i].Call < hist[j].Call })
 		wit := rep.J{"family": family, "state": kind, "clients": nclients, "history": hist}
 		switch res {
@@ -522,7 +522,7 @@ func main() {
 				continue
 			}
 			if family == "rules+enable" {
-				res2, _ := porcupine.CheckOperationsVerbose(model, toOps(hist, true), 20*time.Second)
+				res2, _ := porcupine.CheckOperationsVerbose(model, toOps(hist, true), 10*time.Second)
 				if res2 == porcupine.Ok {
 					r.Violate("c12.pe-two-instant", "history is not linearizable under the strict model but is under the model in which ProcessEvent reads the rule set and the enabled flags at two instants", wit)
 					continue
